@@ -41,6 +41,10 @@ class Emitter:
         s.lit_count = 0
         s.attr_nounwind = {g for g, txt in mod.attr_groups.items() if 'nounwind' in txt.split()}
         s.attr_noreturn = {g for g, txt in mod.attr_groups.items() if 'noreturn' in txt.split()}
+        # cooperative thread model (C11, rt.h): only modules that create std::threads are affected
+        s.thr = THREAD_START in mod.funcs
+        s.tls = {g.name for g in mod.globals.values() if g.thread_local and not g.external} if s.thr else set()
+        s.may_park = set()
 
     # -------------------------------------------------------------- types
     def resolve(s, ty):
@@ -193,6 +197,8 @@ class Emitter:
                 return '((%s)&%s)' % (want, s.gname(v.name)) if want else '&' + s.gname(v.name)
             if v.name in s.m.aliases:
                 return s.val(s.m.aliases[v.name])
+            if v.name in s.tls:      # one copy per modelled thread
+                return '((%s)&%s[rt_cur])' % (s.ctype(ty), s.gname(v.name))
             return '((%s)&%s)' % (s.ctype(ty), s.gname(v.name))
         if isinstance(v, ConstInt):
             if isinstance(ty, IntT):
@@ -817,6 +823,10 @@ class Emitter:
             if res: w('  %s = %s;' % (res, call))
             else: w('  %s;' % call)
             if res and name and name.startswith('nondet_'): w('  RT_ND(%s);' % res)
+        if name is not None and (name == COND_WAIT or name in s.may_park):
+            # the modelled thread parked in condition_variable::wait: leave every frame up to rt_thread_run without running
+            # landing pads (the wait released the mutex; std::unique_lock's destructor must not run)
+            w('  if (rt_parking) return%s;' % retzero)
         if I.op == 'invoke':
             w('  if (rt_exc_pending) { %s } else { %s }' % (jump(b.name, I.extra['unwind']), jump(b.name, I.extra['normal'])))
         else:
@@ -1040,9 +1050,16 @@ class Emitter:
             if g.external:
                 globs.append('%s %s; /* external: modelled as zero-initialised */' % (ct, nm))
                 continue
+            if g.name in s.tls:
+                globs.append('%s %s[RT_MAXT + 1]; /* thread_local: one copy per modelled thread */' % (ct, nm))
+                if g.init is not None and not isinstance(g.init, (ConstZero, ConstUndef)):
+                    for k_ in range(RT_MAXT + 1):
+                        s.emit_init(inits, '%s[%d]' % (nm, k_), g.ty, g.init)
+                continue
             globs.append('%s %s;' % (ct, nm))
             if g.init is not None and not isinstance(g.init, (ConstZero, ConstUndef)):
                 s.emit_init(inits, nm, g.ty, g.init)
+        s.may_park = s.compute_may_park()
         for f in m.funcs.values():
             if f.is_decl: continue
             body.append(s.emit_function(f))
@@ -1074,6 +1091,7 @@ class Emitter:
         out += body
         ext, unmodelled = emit_externals(s)
         out += ext
+        out += s.emit_thread_hooks()
         s.unmodelled = unmodelled
         s.entries = [f.name for f in m.funcs.values() if not f.is_decl and re.match(r'^h_\w+$', f.name)]
         for en in s.entries:
@@ -1086,6 +1104,54 @@ class Emitter:
         out.append('  return 2; }')
         out.append('#endif')
         return '\n'.join(out) + '\n'
+
+    def compute_may_park(s):
+        """functions from which a call chain of direct calls reaches std::condition_variable::wait(unique_lock&)"""
+        m = s.m
+        if COND_WAIT not in m.funcs: return set()
+        callers = {}
+        for f in m.funcs.values():
+            if f.is_decl: continue
+            for b in f.blocks:
+                for I in b.instrs:
+                    if I.op in ('call', 'invoke') and isinstance(I.extra.get('callee'), Global):
+                        callers.setdefault(I.extra['callee'].name, set()).add(f.name)
+        park = set(); work = [COND_WAIT]
+        while work:
+            n = work.pop()
+            for c in callers.get(n, ()):
+                if c not in park: park.add(c); work.append(c)
+        return park
+
+    def emit_thread_hooks(s):
+        """dispatchers the thread model in rt.h calls: run / dispose a std::thread::_State by its vtable, run a thread_local destructor"""
+        m = s.m
+        def fn_of(v):
+            while isinstance(v, ConstExpr) and v.op == 'bitcast': v = v.args[0]
+            return v.name if isinstance(v, Global) and v.name in m.funcs else None
+        inv = ['void rt_thread_invoke(void *st) {']; dis = ['void rt_thread_dispose(void *st) {']
+        for g in m.globals.values():
+            if g.name.startswith('_ZTVNSt6thread11_State_impl') and isinstance(g.init, ConstAgg) and isinstance(g.init.els[0], ConstAgg):
+                els = g.init.els[0].els
+                if len(els) != 5: continue
+                d0, run = fn_of(els[3]), fn_of(els[4])
+                if d0 is None or run is None or m.funcs[d0].is_decl or m.funcs[run].is_decl: continue
+                test = '  if (*(void**)st == (void*)&%s.f0.a[2]) ' % s.gname(g.name)
+                inv.append(test + '{ %s((%s)st); return; }' % (s.gname(run), s.ctype(m.funcs[run].params[0].ty)))
+                dis.append(test + '{ %s((%s)st); return; }' % (s.gname(d0), s.ctype(m.funcs[d0].params[0].ty)))
+        for l in (inv, dis): l.append('  __CPROVER_assert(0, "rt: std::thread start closure of unknown type"); }')
+        atx = ['void rt_call_atexit(void *fn, void *obj) {']; seen = set()
+        for f in m.funcs.values():
+            if f.is_decl: continue
+            for b in f.blocks:
+                for I in b.instrs:
+                    if I.op in ('call', 'invoke') and isinstance(I.extra.get('callee'), Global) and I.extra['callee'].name == '__cxa_thread_atexit':
+                        d = fn_of(I.args[0])
+                        if d is None or d in seen or m.funcs[d].is_decl: continue
+                        seen.add(d)
+                        atx.append('  if (fn == (void*)&%s) { %s((%s)obj); return; }' % (s.gname(d), s.gname(d), s.ctype(m.funcs[d].params[0].ty)))
+        atx.append('  __CPROVER_assert(0, "rt: thread_local destructor of unknown type"); }')
+        return inv + dis + atx
 
     def emit_init(s, inits, lhs, ty, v):
         r = s.resolve(ty)
@@ -1107,6 +1173,10 @@ class Emitter:
         inits.append('%s = %s;' % (lhs, s.val(v)))
 
 
+COND_WAIT = '_ZNSt18condition_variable4waitERSt11unique_lockISt5mutexE'
+THREAD_START = '_ZNSt6thread15_M_start_threadESt10unique_ptrINS_6_StateESt14default_deleteIS1_EEPFvvE'
+RT_MAXT = 4          # rt.h: RT_MAXT
+
 EXT_MODELS = {
     # name: (rt function, number of args passed, returns value?)
     '_Znwm': ('rt_new', 1), '_Znam': ('rt_new', 1),
@@ -1125,12 +1195,16 @@ EXT_MODELS = {
     '_ZNSt15__exception_ptr13exception_ptrC1EPv': ('rt_eptr_ctor', 2),
     '_ZSt9terminatev': ('rt_terminate', 0),
     '__cxa_pure_virtual': ('rt_terminate', 0),
-    '__cxa_thread_atexit': ('rt_ret0', 0), '_ZNSt9exceptionD2Ev': ('rt_nop', 0),
+    '__cxa_thread_atexit': ('rt_thread_atexit', 2), '_ZNSt9exceptionD2Ev': ('rt_nop', 0),
     '_ZSt17__throw_bad_allocv': ('rt_throw_lib', 0), '_ZSt20__throw_length_errorPKc': ('rt_throw_lib', 0),
     '_ZSt28__throw_bad_array_new_lengthv': ('rt_throw_lib', 0), '_ZSt20__throw_system_errori': ('rt_throw_lib', 0),
     '_ZSt25__throw_bad_function_callv': ('rt_throw_lib', 0), '_ZSt24__throw_out_of_range_fmtPKcz': ('rt_throw_lib', 0),
     '_ZNSt18condition_variableC1Ev': ('rt_nop', 0), '_ZNSt18condition_variableD1Ev': ('rt_nop', 0),
-    '_ZNSt18condition_variable10notify_allEv': ('rt_nop', 0), '_ZNSt18condition_variable10notify_oneEv': ('rt_nop', 0),
+    '_ZNSt18condition_variable10notify_allEv': ('rt_cond_notify_all', 1), '_ZNSt18condition_variable10notify_oneEv': ('rt_cond_notify_one', 1),
+    # cooperative thread model (C11): see rt.h
+    COND_WAIT: ('rt_cond_wait', 2), THREAD_START: ('rt_thread_start', 2),
+    '_ZNSt6thread4joinEv': ('rt_thread_join', 1), '_ZNSt6thread6detachEv': ('rt_thread_detach', 1),
+    '_ZNSt6thread20hardware_concurrencyEv': ('rt_hw_concurrency', 0), '_ZNSt6thread6_StateD2Ev': ('rt_nop', 0),
     'sched_yield': ('rt_ret0', 0), 'pthread_self': ('rt_pthread_self', 0), 'syscall': ('rt_syscall', 4),
     '__errno_location': ('rt_errno_location', 0), 'strcmp': ('rt_strcmp', 2),
     '_ZNSt13runtime_errorC1EPKc': ('rt_nop', 0), '_ZNSt13runtime_errorD1Ev': ('rt_nop', 0),
